@@ -1428,13 +1428,14 @@ def behaviour_class(c, w, exp, outcome):
 UB_RE = None
 
 
-def run_cases_ex(exe, cases, env_extra=None, wall_timeout=1800):
+def run_cases_ex(exe, cases, env_extra=None, wall_timeout=1800, max_hangs=2):
     """like common.run_cases but also returns the sanitizer text printed by runs that did not die
     (UBSan/MSan are built recoverable so that every case still yields an observation)."""
     import struct
     results = []
     texts = []
     start = 0
+    hangs = 0
     env = common.run_env(env_extra)
     while start < len(cases):
         data = b"".join(common.pack_case(x) for x in cases[start:])
@@ -1452,9 +1453,17 @@ def run_cases_ex(exe, cases, env_extra=None, wall_timeout=1800):
             texts.append(text)
             break
         # the report of the fatal event is the tail; earlier recoverable reports stay in texts
-        results.append(common.Crash(common.classify_crash(rc, text[-8000:]), text[-6000:], rc))
+        cr = common.Crash(common.classify_crash(rc, text[-8000:]), text[-6000:], rc)
+        results.append(cr)
         texts.append(text[:-6000] if len(text) > 6000 else "")
         start += len(obs) + 1
+        if cr.kind == "hang":
+            hangs += 1
+            if hangs >= max_hangs:
+                # every hang costs a full CPU budget: after a few of them the rest of the batch is
+                # not executed (reported as 'skipped', the hangs themselves are violations)
+                results.extend([common.Crash("skipped", "", None)] * (len(cases) - len(results)))
+                break
     return results[:len(cases)], "\n".join(texts)
 
 
@@ -1550,6 +1559,10 @@ def evaluate(c, v, res, part, soft_only=False):
     common.part_count(part, "cases:" + name)
     if exp.obs_note:
         part["observations"][exp.obs_note] = part["observations"].get(exp.obs_note, 0) + 1
+    if isinstance(res, common.Crash) and res.kind == "skipped":
+        common.part_count(part, "cases_skipped_after_repeated_hangs")
+        part["evaluations"] -= 1
+        return "skipped"
     if isinstance(res, common.Crash):
         lab = (":" + exp.label) if exp.label else ""
         if res.kind == "exit" or (res.kind == "signal" and res.returncode in (-9, -15)):
@@ -1697,7 +1710,10 @@ def work_exh(job):
     if p.returncode != 0 or len(lines) < 8:
         err = p.stderr.decode("utf-8", "replace")
         kind = common.classify_crash(p.returncode, err)
-        if kind in ("asan", "signal"):
+        if kind == "hang":
+            part["violations"].append(("exhaustive:hang", {"variant": v, "exh_args": args[1:], "report": err[-300:],
+                                                           "seed": common.seed()}))
+        elif kind in ("asan", "signal"):
             cr = common.Crash(kind, err[-6000:], p.returncode)
             part["violations"].append(("exhaustive:" + common.crash_key(cr, "bn"),
                                        {"variant": v, "exh_args": args[1:], "report": err[-3000:]}))
